@@ -3,8 +3,8 @@
     Model/DomFacts.v computes [facts_of_name s] / [facts_of_data s] by running the model of the
     parser on the markup the code builds around [s].  Here, for EVERY string [s]:
 
-      facts_of_name_agree   elem_name_agrees, attr_name_agrees (no exclusion), pi_target_agrees
-                            (outside D04), ref_name_agrees (outside D04 and [KnownRefLoose])
+      facts_of_name_agree   elem_name_agrees, attr_name_agrees (no exclusion), pi_target_agrees,
+                            ref_name_agrees (outside D04)
       facts_of_data_agree   pi_data_agrees (no exclusion), value_facts_agree (outside [value_D04])
       facts_of_name_ok      name_facts_ok, facts_of_data_ok : data_facts_ok   (C15, same exclusions)
 
@@ -12,16 +12,16 @@
     outside [KnownFacts] satisfies [op_facts_agree] and, once the fields the call does not read are
     blanked ([relevant], which does not change [step]), [op_facts_ok].
 
-    EXCLUSIONS (decidable):
-    - D04 ([NameLanguage.KnownD04], the predicate of C18 / C02): the production [name] accepts a run
-      of name characters that is empty or starts with a character that cannot start a Name; seen
-      through create_processing_instruction (target), create_entity_reference (name) and
-      references inside attribute values ([value_D04]).
-    - [KnownRefLoose]: NOT a listed finding.  create_entity_reference(name) validates the name with
-      [xml_parser::reference("&name;")] and only asks whether the call succeeded: a name of which a
-      prefix up to a semicolon is a reference ("a;b", "amp;x") or that is a character reference
-      ("#65", "#x41") passes, and the call then fails with the error of the entity lookup instead of
-      INVALID_CHARACTER_ERR.  Witness [ref_loose_refuted]. *)
+    EXCLUSION (decidable): D04 ([NameLanguage.KnownD04], the predicate of C18 / C02): the production
+    [name] accepts a run of name characters that is empty or starts with a character that cannot
+    start a Name; seen through create_processing_instruction (target), create_entity_reference
+    (name) and references inside attribute values ([value_D04]).
+
+    History: a first version of this file carried a second exclusion, for a defect these proofs found
+    (D64: create_entity_reference only asked whether xml_parser::reference("&name;") succeeded, so
+    "a;b", "amp;x", "#65" passed the name test and the call failed with the error of the entity
+    lookup instead of INVALID_CHARACTER_ERR).  Repaired in /repo 37c72ae; the model follows the
+    repaired code and the exclusion is gone ([entref_name_checked]). *)
 From Coq Require Import List NArith Arith Lia Bool.
 From XmlRs Require Import Base.CPred Spec.XmlChars Model.Peg Gen.XmlcharGen Model.ParseActions
   Proofs.XmlcharProofs Proofs.PegLemmas Proofs.NameLanguage Proofs.DisplayLex Model.DomFacts Proofs.DomFactsName Proofs.DomFactsData.
@@ -47,13 +47,10 @@ Proof.
   destruct (name_split_agrees s E) as [H1 H2]. destruct (name_split s) as [p l]. split; assumption.
 Qed.
 
-(** a name that passes the test of create_entity_reference without being a run of name characters *)
-Definition KnownRefLoose (s : str) : bool := ref_fact s && negb (forallb NC s).
-
 Theorem facts_of_name_agree : forall s,
   elem_name_agrees (facts_of_name s) /\ attr_name_agrees (facts_of_name s)
   /\ (KnownD04 s = false -> pi_target_agrees (facts_of_name s))
-  /\ (KnownD04 s = false -> KnownRefLoose s = false -> ref_name_agrees (facts_of_name s)).
+  /\ (KnownD04 s = false -> ref_name_agrees (facts_of_name s)).
 Proof.
   intros s. unfold elem_name_agrees, attr_name_agrees, pi_target_agrees, ref_name_agrees, facts_of_name.
   cbn [n_elem n_attr n_pi n_ref n_str]. split; [rewrite elem_fact_spec; apply name_fact_agrees|].
@@ -62,17 +59,14 @@ Proof.
     destruct (forallb NC s) eqn:E1; cbn [andb].
     + rewrite (proj1 (is_Name_NC s Hd) E1). cbn [andb]. destruct (is_xml_ci s); cbn [negb]; [reflexivity | split; reflexivity].
     + destruct (is_Name s) eqn:E2; [|reflexivity]. apply (is_Name_NC s Hd) in E2. congruence.
-  - intros Hd Hl. unfold KnownRefLoose in Hl.
-    destruct (ref_fact s) eqn:E.
-    + cbn [andb] in Hl. apply negb_false_iff in Hl. symmetry. apply (is_Name_NC s Hd). exact Hl.
-    + destruct (is_Name s) eqn:E2; [|reflexivity]. apply (is_Name_NC s Hd) in E2. rewrite (ref_fact_NC s E2) in E. discriminate.
+  - intros Hd. rewrite ref_fact_spec. apply eq_iff_eq_true. apply (is_Name_NC s Hd).
 Qed.
 
 Theorem facts_of_name_ok : forall s,
   (forall p l, n_elem (facts_of_name s) = Some (p, l) -> qname_ok p l = true)
   /\ (forall p l, n_attr (facts_of_name s) = Some (p, l) -> qname_ok p l = true)
   /\ (KnownD04 s = false -> forall t, n_pi (facts_of_name s) = Some t -> is_Name t = true)
-  /\ (KnownD04 s = false -> KnownRefLoose s = false -> n_ref (facts_of_name s) = true -> is_Name (n_str (facts_of_name s)) = true)
+  /\ (KnownD04 s = false -> n_ref (facts_of_name s) = true -> is_Name (n_str (facts_of_name s)) = true)
   /\ (forall t, n_pi (facts_of_name s) = Some t -> is_xml_ci t = false).
 Proof.
   intros s. destruct (facts_of_name_agree s) as [He [Ha [Hp Hr]]].
@@ -80,32 +74,28 @@ Proof.
   split; [intros p l E; rewrite E in He; tauto|]. split; [intros p l E; rewrite E in Ha; tauto|]. split.
   - intros Hd t E. specialize (Hp Hd). rewrite E in Hp. destruct Hp as [-> Hp]. unfold is_PITarget in Hp. apply andb_prop in Hp. tauto.
   - split.
-    + intros Hd Hl E. rewrite <- (Hr Hd Hl). exact E.
+    + intros Hd E. rewrite <- (Hr Hd). exact E.
     + intros t E. cbn [facts_of_name n_pi] in E. rewrite pi_fact_spec in E.
       destruct (forallb NC s && negb (is_xml_ci s)) eqn:X; [|discriminate]. injection E as <-.
       apply andb_prop in X. destruct X as [_ X]. apply negb_true_iff. exact X.
 Qed.
 
-Theorem name_facts_ok_model : forall s, KnownD04 s = false -> KnownRefLoose s = false -> name_facts_ok (facts_of_name s).
+Theorem name_facts_ok_model : forall s, KnownD04 s = false -> name_facts_ok (facts_of_name s).
 Proof.
-  intros s Hd Hl. destruct (facts_of_name_ok s) as [H1 [H2 [H3 [H4 _]]]].
-  split; [exact H1|]. split; [exact H2|]. split; [exact (H3 Hd) | exact (H4 Hd Hl)].
+  intros s Hd. destruct (facts_of_name_ok s) as [H1 [H2 [H3 [H4 _]]]].
+  split; [exact H1|]. split; [exact H2|]. split; [exact (H3 Hd) | exact (H4 Hd)].
 Qed.
 
 (** the exclusions are needed *)
 Theorem name_D04_refuted : exists s, KnownD04 s = true /\ ~ pi_target_agrees (facts_of_name s).
 Proof. exists [49]. split; [reflexivity|]. unfold pi_target_agrees. vm_compute. intros [_ H]. discriminate. Qed.
 
-Theorem ref_loose_refuted : exists s, KnownD04 s = false /\ KnownRefLoose s = true /\ ~ ref_name_agrees (facts_of_name s).
-Proof. exists [97; 59; 98]. split; [reflexivity|]. split; [vm_compute; reflexivity|]. unfold ref_name_agrees. vm_compute. discriminate. Qed.
-
-(** the shapes inside [KnownRefLoose]: a reference followed by anything after its semicolon, or a
-    character reference *)
-Theorem ref_loose_shape : forall s, KnownRefLoose s = true <->
-  (exists x r, reference_ok x /\ 38 :: s ++ [59] = d_reference x ++ r) /\ forallb NC s = false.
-Proof.
-  intros s. unfold KnownRefLoose. rewrite andb_true_iff, negb_true_iff, ref_fact_shape. reflexivity.
-Qed.
+(** D64 (repaired): names of which only a prefix is a reference, and character references, do not
+    pass the name test of create_entity_reference *)
+Example entref_name_checked :
+  map (fun s => n_ref (facts_of_name s)) [[97; 59; 98]; [35; 54; 53]; [97; 109; 112; 59; 120]; [35; 120; 52; 49; 59; 122; 122]; [97; 109; 112]]
+  = [false; false; false; false; true].
+Proof. vm_compute. reflexivity. Qed.
 
 (** ** data *)
 Lemma spec_list_vmatch q : forall avl b pl, av_ok q b avl -> spec_list avl = Some pl -> vmatch (map vitem_of avl) pl.
@@ -237,10 +227,7 @@ Definition KnownD04_op (o : op) : bool :=
   | _ => false
   end.
 
-Definition KnownRefLoose_op (o : op) : bool :=
-  match o with CreateEntityReference _ n => KnownRefLoose (n_str n) | _ => false end.
-
-Definition KnownFacts (o : op) : bool := KnownD04_op o || KnownRefLoose_op o.
+Definition KnownFacts (o : op) : bool := KnownD04_op o.
 
 (** the fields a call does not read, blanked *)
 Definition relevant (o : op) : op :=
@@ -272,9 +259,9 @@ Proof. unfold data_mf. intros H. symmetry. exact H. Qed.
 
 Theorem model_facts_agree : forall o, model_facts o -> KnownFacts o = false -> op_facts_agree o.
 Proof.
-  intros o M K. unfold model_facts in M. unfold KnownFacts in K. apply orb_false_iff in K. destruct K as [K1 K2].
+  intros o M K1. unfold model_facts in M. unfold KnownFacts in K1.
   destruct o as [| | | |r n v| | | | | |d n|d n| | | |d n v|d n| |r v| | | | | | |r v|];
-    cbn [with_model_facts] in M; cbn [op_facts_agree KnownD04_op KnownRefLoose_op] in *; try exact I.
+    cbn [with_model_facts] in M; cbn [op_facts_agree KnownD04_op] in *; try exact I.
   - (* SetAttribute *) injection M as Hn Hv. apply name_mf_eq in Hn. apply data_mf_eq in Hv. rewrite Hn, Hv.
     rewrite Hv in K1. cbn [facts_of_data d_str] in K1. split.
     + exact (proj1 (proj2 (facts_of_name_agree _))).
@@ -285,8 +272,8 @@ Proof.
     rewrite Hn in K1. cbn [facts_of_name n_str] in K1. split.
     + exact (proj1 (proj2 (proj2 (facts_of_name_agree _))) K1).
     + exact (proj1 (facts_of_data_agree _)).
-  - (* entity reference *) injection M as Hn. apply name_mf_eq in Hn. rewrite Hn. rewrite Hn in K1, K2. cbn [facts_of_name n_str] in K1, K2.
-    exact (proj2 (proj2 (proj2 (facts_of_name_agree _))) K1 K2).
+  - (* entity reference *) injection M as Hn. apply name_mf_eq in Hn. rewrite Hn. rewrite Hn in K1. cbn [facts_of_name n_str] in K1.
+    exact (proj2 (proj2 (proj2 (facts_of_name_agree _))) K1).
   - (* set_node_value *) injection M as Hv. apply data_mf_eq in Hv. rewrite Hv. rewrite Hv in K1. cbn [facts_of_data d_str] in K1. split.
     + exact (proj2 (facts_of_data_agree _) K1).
     + exact (proj1 (facts_of_data_agree _)).
@@ -296,9 +283,9 @@ Qed.
 (** lexical soundness, for the operation with the unread fields blanked *)
 Theorem model_facts_ok : forall o, model_facts o -> KnownFacts o = false -> op_facts_ok (relevant o).
 Proof.
-  intros o M K. unfold model_facts in M. unfold KnownFacts in K. apply orb_false_iff in K. destruct K as [K1 K2].
+  intros o M K1. unfold model_facts in M. unfold KnownFacts in K1.
   destruct o as [| | | |r n v| | | | | |d n|d n| | | |d n v|d n| |r v| | | | | | |r v|];
-    cbn [with_model_facts] in M; cbn [relevant op_facts_ok KnownD04_op KnownRefLoose_op] in *; try exact I.
+    cbn [with_model_facts] in M; cbn [relevant op_facts_ok KnownD04_op] in *; try exact I.
   - (* SetAttribute *) injection M as Hn Hv. apply name_mf_eq in Hn. apply data_mf_eq in Hv.
     rewrite Hv in K1. cbn [facts_of_data d_str] in K1. split.
     + unfold name_facts_ok. cbn [n_elem n_attr n_pi n_ref n_str]. rewrite Hn.
@@ -315,10 +302,10 @@ Proof.
     + unfold data_facts_ok. cbn [d_attr d_pi]. rewrite Hv. split; [discriminate|].
       intros c Hc. cbn [facts_of_data d_pi] in Hc. rewrite pi_data_fact_spec in Hc.
       destruct (DomL1.storable_pi (d_str v)) eqn:St; [|discriminate]. injection Hc as <-. apply skip_space_storable. exact St.
-  - (* entity reference *) injection M as Hn. apply name_mf_eq in Hn. rewrite Hn in K1, K2. cbn [facts_of_name n_str] in K1, K2.
+  - (* entity reference *) injection M as Hn. apply name_mf_eq in Hn. rewrite Hn in K1. cbn [facts_of_name n_str] in K1.
     unfold name_facts_ok. cbn [n_elem n_attr n_pi n_ref n_str]. rewrite Hn.
     split; [discriminate|]. split; [discriminate|]. split; [discriminate|].
-    exact (proj1 (proj2 (proj2 (proj2 (facts_of_name_ok _)))) K1 K2).
+    exact (proj1 (proj2 (proj2 (proj2 (facts_of_name_ok _)))) K1).
   - (* set_node_value *) injection M as Hv. apply data_mf_eq in Hv. rewrite Hv in K1. cbn [facts_of_data d_str] in K1.
     unfold data_facts_ok. cbn [d_attr d_pi]. rewrite Hv. exact (data_facts_ok_model _ K1).
   - injection M as Hv. apply data_mf_eq in Hv. unfold data_facts_ok. cbn [d_attr d_pi]. rewrite Hv. split; [discriminate|].
